@@ -239,6 +239,63 @@ theorem wf_function_of_values (g g' : List α) (P P' N N' Es Es' : α)
     doWF g P N Es = doWF g' P' N' Es' := by
   subst hg hP hN hEs; rfl
 
+/-! ### robustness facts (round 2: R8, R14) -/
+
+omit [IsStrictOrderedRing α] in
+/-- R8, argument forms: leaving `noiseVar` and/or `Es` out of the call (positionally or by
+    keyword) is the call with the value `1` — all four combinations. -/
+theorem wf_default_args (g : List α) (P N Es : α) :
+    doWFCall g P none none = doWF g P 1 1 ∧ doWFCall g P (some N) none = doWF g P N 1 ∧
+    doWFCall g P none (some Es) = doWF g P 1 Es ∧ doWFCall g P (some N) (some Es) = doWF g P N Es := by
+  simp [doWFCall]
+
+/-- R8: with both optional arguments left out the clauses read `p_j = max 0 (mu − 1/g_j)`,
+    `Σ p = P`, `p ≥ 0` (the textbook form). -/
+theorem wf_default_call_clauses (g : List α) (P : α) (p : List α) (mu : α)
+    (hne : g ≠ []) (hg : ∀ x ∈ g, 0 < x) (hP : 0 < P)
+    (hres : doWFCall g P none none = .ok (p, mu)) :
+    p.sum = P ∧ (∀ y ∈ p, 0 ≤ y) ∧ p = g.map (fun x => max 0 (mu - 1 / x)) := by
+  have h1 : doWFCall g P none none = doWFWith (argsortAsc g) g.length P 1 1 := by
+    simp [doWFCall, doWF]
+  rw [h1] at hres
+  obtain ⟨p', mu', h, hw, _⟩ := doWFWith_isWaterFilling g (argsortAsc g) P 1 1
+    (argsortAsc_contract g) hne hg hP.le one_pos one_pos
+  rw [hres] at h
+  cases h
+  refine ⟨hw.sum, hw.nonneg, ?_⟩
+  have := hw.form
+  simpa using this
+
+/-- The driver's `doWFCallRat` is the `ℚ` instance of `doWFCall`. -/
+theorem wf_driver_call_instance (g : List ℚ) (P : ℚ) (N Es : Option ℚ) :
+    doWFCallRat g P N Es = doWFCall g P N Es := rfl
+
+/-- R14 / R5, any NUMBER of channels with equal gains (257, 2^16+1, … — no bound on `n`):
+    every channel gets `P/n` and the level is `P/n + N/(Es·x)`. -/
+theorem wf_equal_gains (n : Nat) (x : α) (asc : List (Chan α)) (P N Es : α) (p : List α) (mu : α)
+    (hn : 0 < n) (hx : 0 < x) (hc : SortContract (List.replicate n x) asc)
+    (hP : 0 < P) (hN : 0 < N) (hEs : 0 < Es)
+    (hres : doWFWith asc (List.replicate n x).length P N Es = .ok (p, mu)) :
+    mu = P / n + N / (Es * x) ∧ p = List.replicate n (P / n) := by
+  have hne : List.replicate n x ≠ [] := by
+    intro h; have := congrArg List.length h; simp at this; omega
+  have hg : ∀ y ∈ List.replicate n x, 0 < y := by
+    intro y hy; rw [(List.mem_replicate.mp hy).2]; exact hx
+  have hn' : (n : α) ≠ 0 := by exact_mod_cast hn.ne'
+  have hsum : ((List.replicate n x).map
+      (fun y => max 0 (P / n + N / (Es * x) - N / (Es * y)))).sum = P := by
+    have : (List.replicate n x).map (fun y => max 0 (P / n + N / (Es * x) - N / (Es * y)))
+        = List.replicate n (P / n) := by
+      rw [List.map_replicate]
+      congr 1
+      rw [add_sub_cancel_right]
+      exact max_eq_right (div_nonneg hP.le (Nat.cast_nonneg n))
+    rw [this, List.sum_replicate, nsmul_eq_mul, mul_div_cancel₀ _ hn']
+  obtain ⟨e1, e2⟩ := wf_unique _ asc P N Es p mu hc hne hg hP hN hEs hres _ hsum
+  refine ⟨e1.symm, ?_⟩
+  rw [← e2, List.map_replicate, add_sub_cancel_right,
+    max_eq_right (div_nonneg hP.le (Nat.cast_nonneg n))]
+
 /-- The model's own sort (the one the compiled driver runs) is an admissible `argsort`
     result, so every theorem above applies to `doWF g P N Es`. -/
 theorem wf_model_sort_admissible (g : List α) :
